@@ -139,14 +139,23 @@ func runLifeProfile(l *Life, profile string, n, steps int) {
 			l.BuildStress(6, steps, fmt.Sprintf("%s-%d", profile, i))
 			continue
 		case "engfail":
-			l.EngineFailures([]string{"flat", "ivf"}[i%2], fmt.Sprintf("%s-%d", profile, i))
+			l.EngineFailures([]string{"flat", "ivf", "big"}[i%3], fmt.Sprintf("%s-%d", profile, i))
 			continue
 		case "vec":
 			p = VecProfile()
+			if i%5 == 4 {
+				l.VecChainScenario(fmt.Sprintf("%s-chain-%d", profile, i))
+				continue
+			}
 		case "syn":
 			p = SynProfile()
 		case "mergey":
 			p = MergeyProfile()
+		case "wide":
+			p = WideProfile()
+			l.light = true
+			l.WideScenario(&p, fmt.Sprintf("%s-%d", profile, i))
+			continue
 		case "leancross":
 			l.light = true
 			l.LeanCrossScenario(fmt.Sprintf("%s-%d", profile, i))
